@@ -16,7 +16,7 @@ from .common import describe_violation, result, compare_nlps, bind_positional
 
 PROP = 'C13'
 LEVEL = 'translation_validation'
-OPS = ['Q_sample', 'Q_value', 'Q_jac', 'SOLVE', 'SV', 'SVC', 'SI', 'ST', 'CC', 'AO', 'M', 'S', 'T', 'T0', 'TF', 'T0F', 'NV', 'NP', 'SIE', 'SVP']
+OPS = ['Q_sample', 'Q_value', 'Q_jac', 'SOLVE', 'SV', 'SVC', 'SI', 'ST', 'CC', 'AO', 'M', 'S', 'T', 'T0', 'TF', 'T0F', 'NV', 'NP', 'SIE', 'SVP', 'SD']
 META = {
     'rule': 'instance = history: declare; transcribe; then a sequence over {sample, value, jacobian, solve_limited, set_value, set_initial, subject_to, clear_constraints, '
             'add_objective, method, solver, set_T, set_t0 (number and FreeTime), declaring a NEW variable / a NEW parameter and using it, a time-expression guess, values of a per-interval parameter} of length <=2 (quick, exhaustive) / 3 (thorough, sampled).  The evolved OCP and a FRESH OCP written with the final '
@@ -58,9 +58,15 @@ def instances(tier, seed):
     for op2 in (('ST', 'AO'), ('AO', 'T')):
         add(kind='multistage', stage=1, op=op2)
     meths = [('MS', 'rk', 1), ('SS', 'rk', 2), ('DC', None, 1)]
+    # grids with localized time variables keep their own state in the method object; a grid='inf' constraint keeps per-interval conversions
+    hgrids = [fam.G_UNI, fam.G_UNI, fam.G_UNI_LT, fam.G_FREE, fam.G_GEO_LOC_LT, fam.G_UNI_LT0]
     for hi, h in enumerate(hist):
         method, intg, M = meths[hi % 3]
-        add(history=h, spec=base_spec(), cfg=Cfg(method, N=2, M=M, intg=intg or 'rk', grid=fam.G_UNI, degree=2, scheme='radau'))
+        sp = base_spec()
+        if method == 'MS' and hi % 2 == 0:
+            sp.cons = list(sp.cons) + [Con('<=', X(0), 5, grid='inf')]
+            sp.note = 'with a grid=inf constraint'
+        add(history=h, spec=sp, cfg=Cfg(method, N=2, M=M, intg=intg or 'rk', grid=hgrids[(hi // 3) % len(hgrids)], degree=2, scheme='radau'))
     return items
 
 
@@ -156,6 +162,11 @@ def apply_op(op, b, spec, cfg, state):
         e = t * (1 + n) + Fr(1, 2)
         ocp.set_initial(b.us[0], b.mx(e))
         spec.initial = [(tg, vl) for tg, vl in spec.initial if not (tg.op == 'u' and tg.a[0] == 0)] + [(U(0), e)]
+    elif op == 'SD':
+        # the right-hand side of an existing state is re-assigned (same dimensions)
+        rhs = X(0) * (1 + n) - X(1) * Pg('pc') + t
+        ocp.set_der(b.xs[1], b.mx(rhs))
+        spec.ode = [spec.ode[0], rhs]
     elif op == 'SVP':
         # values of a per-interval parameter (one column per control interval)
         vals = [Fr(10 * n + k, 4) for k in range(cfg.N)]
@@ -210,7 +221,7 @@ def run_multistage(item):
                 fs['spec'].cons = []
     rejected = None
     try:
-        E_ = Inst(None, None, seed=item.get('seed', 0), built=m, solver=False, extra_outputs=lambda b: [b.ocp.value(b.w)])
+        E_ = Inst(None, None, seed=item.get('seed', 0), built=m, solver=False, extra_outputs=lambda b: [b.ocp.value(b.w), b.ocp.value(b.w2), b.ocp.value(b.pa), b.ocp.value(b.pb)])
     except RockitRaised as e:
         rejected = str(e)
     if rejected:
@@ -219,7 +230,7 @@ def run_multistage(item):
     with quiet():
         mf = c12.build(final)
         mf.ocp.solver('ipopt')
-    F = Inst(None, None, seed=item.get('seed', 0), built=mf, solver=False, like=E_, bind=bind_positional(), extra_outputs=lambda b: [b.ocp.value(b.w)])
+    F = Inst(None, None, seed=item.get('seed', 0), built=mf, solver=False, like=E_, bind=bind_positional(), extra_outputs=lambda b: [b.ocp.value(b.w), b.ocp.value(b.w2), b.ocp.value(b.pa), b.ocp.value(b.pb)])
     ch = Checker(E_)
     diffs, npairs = compare_nlps(ch, E_, F, 'evolved', 'fresh')
     for key, label, detail in diffs:
@@ -305,7 +316,7 @@ def run(item):
     else:
         ch.proved.append('declared lists unchanged')
     twins_ok = twins_bad = 0
-    if item.get('twin', True) and any(o in ('ST', 'AO', 'T', 'T0', 'TF', 'T0F', 'NV', 'NP') for o in hist) and 'M' not in hist and 'CC' not in hist:
+    if item.get('twin', True) and any(o in ('ST', 'AO', 'T', 'T0', 'TF', 'T0F', 'NV', 'NP', 'SD') for o in hist) and 'M' not in hist and 'CC' not in hist:
         # vacuity guard: against a fresh OCP with the ORIGINAL specification the comparison must fail
         with quiet():
             b0 = declare(item['spec'], item['cfg'])
